@@ -2,7 +2,8 @@
    (Gen/Analyze.v), checked by computation.  Every example was also run
    through the real tool (lox at the pinned commit), the expected list is the
    tool's output (message -> kind, line -> declaration id).
-   A2: the refutations of "accepted -> well formed". *)
+   A2: the refutation of "accepted -> well formed" (one gap is left), and the
+   three former gaps as positive examples. *)
 From Coq Require Import List String Ascii ZArith Bool Arith.
 From Lox Require Import Gen.Analyze.
 Import ListNotations.
@@ -136,43 +137,77 @@ Example ex_utf8_alias :
   = [(KUnknownAlias, Some 5)].
 Proof. vm_compute. reflexivity. Qed.
 
+(* ---- Check: ranges, macro cycles, empty parser literal ------------- *)
+
+(* A = [z-a]; B = [a-b] [z-a c-b x] - [b-a q-p]; M = [9-0] N; N = M; C = ~[b-a]
+   one diagnostic per reversed item; M's own diagnostic switches the cycle
+   walk off *)
+Definition ex_ranges : spec := [[
+  DToken 2 "A" (one (LClass [(122, 97)%Z])) [];
+  DToken 3 "B" (sq [LClass [(97, 98)%Z];
+                    LClass [(122, 97); (99, 98); (120, 120); (98, 97); (113, 112)]%Z]) [];
+  DMacro 4 "M" (sq [LClass [(57, 48)%Z]; LRef "N"]);
+  DMacro 5 "N" (one (LRef "M"));
+  DToken 6 "C" (one (LClass [(98, 97)%Z])) []]].
+Example ex_ranges_diags :
+  analyze ex_ranges =
+  [(KBadRange, Some 2); (KBadRange, Some 3); (KBadRange, Some 3); (KBadRange, Some 3);
+   (KBadRange, Some 3); (KBadRange, Some 4); (KBadRange, Some 6)].
+Proof. vm_compute. reflexivity. Qed.
+
+(* M = N; N = P; P = N; Q = Q; B = Q : the walk from M re-enters N, which is
+   blamed; nothing is logged afterwards (HasError stops every later walk) *)
+Example ex_cycle_once :
+  analyze [[tok 2 "A" "a"; DMacro 3 "M" (one (LRef "N")); DMacro 4 "N" (one (LRef "P"));
+            DMacro 5 "P" (one (LRef "N")); DMacro 6 "Q" (one (LRef "Q"));
+            DToken 7 "B" (one (LRef "Q")) []]]
+  = [(KMacroCycle, Some 4)].
+Proof. vm_compute. reflexivity. Qed.
+
+(* K = 'k' ('x' | A | Q); Q = Q; R = R : an earlier diagnostic hides all cycles *)
+Example ex_cycle_masked :
+  analyze [[tok 2 "A" "a";
+            DMacro 3 "K" (sq [L "k"; LGroup [[(L "x", COne)]; [(LRef "A", COne)]; [(LRef "Q", COne)]]]);
+            DMacro 4 "Q" (one (LRef "Q")); DMacro 5 "R" (one (LRef "R"))]]
+  = [(KNotAMacro, Some 3)].
+Proof. vm_compute. reflexivity. Qed.
+
+(* M = 'x' (A2 | N) N; A2 = 'y'; N = A2 M; B = UNDEF; R = R;
+   @start s = A '' | @list('', A) | @list(A, '')? *)
+Example ex_cycle_then_others :
+  analyze [[tok 2 "A" "a";
+            DMacro 3 "M" (sq [L "x"; LGroup [[(LRef "A2", COne)]; [(LRef "N", COne)]]; LRef "N"]);
+            DMacro 4 "A2" (one (L "y")); DMacro 5 "N" (sq [LRef "A2"; LRef "M"]);
+            DToken 6 "B" (one (LRef "UNDEF")) []; DMacro 7 "R" (one (LRef "R"));
+            DRule 9 true "s" [[PName "A"; PAlias ""]; [PList (PAlias "") (PName "A") false];
+                              [PList (PName "A") (PAlias "") true]]]]
+  = [(KMacroCycle, Some 3); (KUndefined, Some 6); (KEmptyLiteral, Some 9);
+     (KEmptyLiteral, Some 9); (KEmptyLiteral, Some 9)].
+Proof. vm_compute. reflexivity. Qed.
+
 (* ---- GenerateGrammar --------------------------------------------- *)
 
-(* M = N 'x' (N | M); N = M; K = K; U, U2 a cycle nobody uses.  Every
-   expansion from a token or fragment reports every re-entry, positioned at the
-   re-entered macro; action errors come after the rule's expansion; a token
-   reports only its first offending action. *)
+(* K = 'k' is an ordinary macro.  A token reports only its first offending
+   action; a fragment: second @discard / second @emit inside the loop, both
+   after it. *)
 Definition ex_gen : spec := [[
   DToken 2 "A" (one (L "a")) [ADiscard; AEmit "A"];
   DToken 3 "B" (one (L "b")) [AEmit "B"; ADiscard];
   DToken 4 "C" (one (L "c")) [APop; APush "$default"; AEmit "A"];
-  DMacro 5 "M" (sq [LRef "N"; L "x"; LGroup [[(LRef "N", COne)]; [(LRef "M", COne)]]]);
-  DMacro 6 "N" (one (LRef "M"));
-  DMacro 7 "K" (one (LRef "K"));
-  DMacro 8 "U" (one (LRef "U2"));
-  DMacro 9 "U2" (one (LRef "U"));
-  DToken 10 "D" (one (LRef "M")) [];
-  DToken 11 "E" (sq [LRef "N"; LRef "N"]) [];
-  DToken 12 "F" [[(LRef "K", COne)]; [(LRef "M", COne)]] [];
+  DMacro 7 "K" (one (L "k"));
   DFrag 13 (one (L "f")) [ADiscard; ADiscard; AEmit "A"; AEmit "A"];
   DFrag 14 (one (L "g")) [AEmit "A"; ADiscard; AEmit "B"];
   DFrag 15 (one (L "h")) [AEmit "A"; APop; ADiscard];
   DFrag 16 (one (L "i")) [ADiscard; AEmit "A"];
   DFrag 17 (one (L "j")) [AEmit "A"; AEmit "A"; ADiscard; ADiscard];
   DFrag 18 (one (LRef "K")) [ADiscard; ADiscard];
-  DMode 19 "Mo" [DToken 20 "G" (sq [L "g"; LRef "N"]) [ADiscard]];
+  DMode 19 "Mo" [DToken 20 "G" (sq [L "g"; LRef "K"]) [ADiscard]];
   DRule 23 false "s" [[PName "A"]]]].
 Example ex_gen_diags :
   analyze ex_gen =
   [(KTokenDiscard, Some 2); (KTokenEmit, Some 3); (KTokenEmit, Some 4);
-   (KMacroCycle, Some 5); (KMacroCycle, Some 5); (KMacroCycle, Some 5);
-   (KMacroCycle, Some 6); (KMacroCycle, Some 6); (KMacroCycle, Some 5);
-   (KMacroCycle, Some 6); (KMacroCycle, Some 6); (KMacroCycle, Some 5);
-   (KMacroCycle, Some 7); (KMacroCycle, Some 5); (KMacroCycle, Some 5); (KMacroCycle, Some 5);
    (KFragTwoDiscard, Some 13); (KFragTwoEmit, Some 14); (KFragDiscardAndEmit, Some 15);
-   (KFragDiscardAndEmit, Some 16); (KFragTwoEmit, Some 17);
-   (KMacroCycle, Some 7); (KFragTwoDiscard, Some 18);
-   (KMacroCycle, Some 6); (KMacroCycle, Some 6); (KMacroCycle, Some 5);
+   (KFragDiscardAndEmit, Some 16); (KFragTwoEmit, Some 17); (KFragTwoDiscard, Some 18);
    (KTokenDiscard, Some 20)].
 Proof. vm_compute. reflexivity. Qed.
 
@@ -194,50 +229,45 @@ Example ex_first_pass_only :
   analyze [[DToken 1 "G" (one (LRef "NOPE")) [ADiscard]]] = [(KUndefined, Some 1)].
 Proof. vm_compute. reflexivity. Qed.
 
-(* ---- A2: accepted but not well formed ---------------------------- *)
+(* ---- A2 ---------------------------------------------------------- *)
 
-(* A = [z-a] *)
+(* Three former gaps, closed by c05ffe8 / 938df3a / b7deef5: now rejected.
+   A = [z-a] *)
 Definition spec_reversed_range : spec := [[DToken 1 "A" (one (LClass [(122, 97)%Z])) []]].
-Example reversed_range_refuted :
-  analyze spec_reversed_range = [] /\ well_formed spec_reversed_range = false.
+Example reversed_range_rejected :
+  analyze spec_reversed_range = [(KBadRange, Some 1)] /\ well_formed spec_reversed_range = false.
 Proof. vm_compute. auto. Qed.
 
-(* A = 'a'; @macro M = N; @macro N = M *)
+(* A = 'a'; @macro M = N; @macro N = M  (never used) *)
 Definition spec_unused_cycle : spec :=
   [[tok 1 "A" "a"; DMacro 2 "M" (one (LRef "N")); DMacro 3 "N" (one (LRef "M"))]].
-Example unused_macro_cycle_refuted :
-  analyze spec_unused_cycle = [] /\ well_formed spec_unused_cycle = false.
+Example unused_macro_cycle_rejected :
+  analyze spec_unused_cycle = [(KMacroCycle, Some 2)] /\ well_formed spec_unused_cycle = false.
 Proof. vm_compute. auto. Qed.
 
-(* A2: "accepted only if well formed" does not hold of lox *)
-Theorem analyze_rejects_iff_refuted : ~ (forall s, analyze s = [] -> well_formed s = true).
-Proof.
-  intros H. specialize (H spec_reversed_range (proj1 reversed_range_refuted)).
-  rewrite (proj2 reversed_range_refuted) in H. discriminate.
-Qed.
-
-(* the cycle is found as soon as a token uses it *)
 Example used_macro_cycle_rejected :
   analyze [[DToken 1 "A" (one (LRef "M")) []; DMacro 2 "M" (one (LRef "N"));
             DMacro 3 "N" (one (LRef "M"))]] = [(KMacroCycle, Some 2)].
 Proof. vm_compute. reflexivity. Qed.
 
-(* two more gaps found while modelling (both reproduced on the real tool):
-   @start s = A ''   -- the empty literal is neither resolved nor rejected *)
+(* @start s = A '' *)
 Definition spec_empty_alias : spec :=
   [[tok 1 "A" "a"; DRule 2 true "s" [[PName "A"; PAlias ""]]]].
-Example empty_alias_refuted :
-  analyze spec_empty_alias = [] /\ well_formed spec_empty_alias = false.
+Example empty_alias_rejected :
+  analyze spec_empty_alias = [(KEmptyLiteral, Some 2)] /\ well_formed spec_empty_alias = false.
 Proof. vm_compute. auto. Qed.
 
-(* @start a__b = A  -- parser_reference.md forbids consecutive underscores *)
+(* The remaining gap: @start a__b = A  -- parser_reference.md forbids
+   consecutive underscores in rule names, lox accepts them. *)
 Definition spec_rule_name : spec := [[tok 1 "A" "a"; DRule 2 true "a__b" [[PName "A"]]]].
 Example rule_name_refuted :
-  analyze spec_rule_name = [] /\ well_formed spec_rule_name = false.
+  analyze spec_rule_name = [] /\ well_formed spec_rule_name = false /\
+  well_formed_weak spec_rule_name = true.
 Proof. vm_compute. auto. Qed.
 
-(* all four are well formed in the weak sense *)
-Example refuted_specs_weak :
-  well_formed_weak spec_reversed_range = true /\ well_formed_weak spec_unused_cycle = true /\
-  well_formed_weak spec_empty_alias = true /\ well_formed_weak spec_rule_name = true.
-Proof. vm_compute. auto. Qed.
+(* "accepted only if well formed" does not hold of lox *)
+Theorem analyze_rejects_iff_refuted : ~ (forall s, analyze s = [] -> well_formed s = true).
+Proof.
+  intros H. destruct rule_name_refuted as [H1 [H2 _]].
+  specialize (H spec_rule_name H1). rewrite H2 in H. discriminate.
+Qed.
